@@ -122,7 +122,7 @@ class Explorer:
         global CUR
         work = [([], False)]
         results = []
-        t0 = time.perf_counter()
+        t0 = time.process_time()      # budgets are CPU time of this process: a loaded machine must not change verdicts
         prev = CUR
         CUR = self
         try:
@@ -135,7 +135,7 @@ class Explorer:
                     break
                 if self.stats.paths >= self.max_paths or (
                         self.wall_s is not None
-                        and time.perf_counter() - t0 > self.wall_s):
+                        and time.process_time() - t0 > self.wall_s):
                     self.complete = False
                     self.stats.incomplete += 1
                     break
@@ -154,8 +154,8 @@ class Explorer:
                     if threading.current_thread() is threading.main_thread():
                         def _on_alarm(signum, frame):
                             raise PathTimeout()
-                        old_handler = signal.signal(signal.SIGALRM, _on_alarm)
-                        signal.setitimer(signal.ITIMER_REAL, self.path_timeout_s)
+                        old_handler = signal.signal(signal.SIGPROF, _on_alarm)
+                        signal.setitimer(signal.ITIMER_PROF, self.path_timeout_s)
                 try:
                     res = fn(self)
                     results.append((list(self.trail), res))
@@ -173,8 +173,8 @@ class Explorer:
                 finally:
                     if old_handler is not None:
                         import signal
-                        signal.setitimer(signal.ITIMER_REAL, 0)
-                        signal.signal(signal.SIGALRM, old_handler)
+                        signal.setitimer(signal.ITIMER_PROF, 0)
+                        signal.signal(signal.SIGPROF, old_handler)
                     self.solver.pop()
                 self.stats.max_depth = max(self.stats.max_depth, len(self.trail))
                 work.extend(self.new_alts)
@@ -287,6 +287,7 @@ class Explorer:
             r = self.check()
             return "refuted", (self.model() if r == z3.sat else None)
         r = self.check(z3.Not(cond))
+        m = self.model() if r == z3.sat else None     # before the cross-check, which may touch the solver
         if self.CROSS["every"] and r != z3.unknown:
             self.CROSS["count"] += 1
             if self.CROSS["count"] % self.CROSS["every"] == 0:
@@ -296,7 +297,7 @@ class Explorer:
             return "valid", None
         if r == z3.sat:
             self.stats.refuted += 1
-            return "refuted", self.model()
+            return "refuted", m
         self.stats.undecided += 1
         return "unknown", None
 
@@ -609,6 +610,18 @@ class SymNum:
     @property
     def is_int(self):
         return self.t.sort() == INT
+
+    # the proxies model real numbers: z.real is z, z.imag is 0 (as for Python ints/floats)
+    @property
+    def real(self):
+        return self
+
+    @property
+    def imag(self):
+        return SymNum(z3.IntVal(0) if self.t.sort() == INT else z3.RealVal(0))
+
+    def conjugate(self):
+        return self
 
     def __repr__(self):
         return "SymNum(%s)" % z3.simplify(self.t)
